@@ -618,6 +618,14 @@ impl RawAutomaton {
         // forward order would miss some transitions when some initial states
         // happen to be final as well.
         for automaton in automata.iter().rev() {
+            // A factor whose initial state is final and has no successor recognises exactly
+            // the empty word (automata have no dead states): it is neutral for concatenation.
+            // The optimised branch below would otherwise lose the empty word of this factor.
+            if automaton.final_states.contains(&automaton.initial_state)
+                && automaton.transitions[automaton.initial_state].is_empty()
+            {
+                continue;
+            }
             let nb_states = concat_automaton.transitions.len();
             let (mut transitions, _) = RawAutomaton::filter_map_transitions(
                 &automaton.transitions,
